@@ -40,6 +40,7 @@ type WorkerOut struct {
 	TimedOut   bool              `json:"timed_out"`
 	Decisions  map[string]uint64 `json:"decisions"` // simulator decisions asked/fired per kind
 	// violations observed in the worker process that do not reproduce from their plan alone
+	SetNames         []string `json:"set_names"`
 	Unreproduced     int    `json:"unreproduced"`
 	UnreproducedNote string `json:"unreproduced_note"`
 }
@@ -78,6 +79,7 @@ func WorkerMain(args []string) int {
 	out := WorkerOut{Faults: map[string]int{}, Probes: map[string]int{}, Digests: map[string]uint64{}, Decisions: map[string]uint64{}}
 	sigNT := map[uint64]struct{}{}
 	sigAll := map[uint64]struct{}{}
+	sets := map[string]map[uint64]struct{}{}
 	seenViol := map[string]bool{}
 	start := time.Now()
 	for i := *from + *offset; i < *to; i += *stride {
@@ -107,8 +109,24 @@ func WorkerMain(args []string) int {
 		for k, v := range res.Faults {
 			out.Faults[k] += v
 		}
+		for name, hs := range res.Sets {
+			m := sets[name]
+			if m == nil {
+				m = map[uint64]struct{}{}
+				sets[name] = m
+			}
+			for _, h := range hs {
+				m[h] = struct{}{}
+			}
+		}
 		for k, v := range res.Probes {
-			out.Probes[k] += v
+			if strings.HasPrefix(k, "max_") { // maxima are merged by max, counts by sum
+				if v > out.Probes[k] {
+					out.Probes[k] = v
+				}
+			} else {
+				out.Probes[k] += v
+			}
 		}
 		if i < *digestsN {
 			out.Digests[strconv.FormatUint(i, 10)] = res.Digest
@@ -188,6 +206,16 @@ func WorkerMain(args []string) int {
 		}
 		if err := os.WriteFile(*sigFile, buf, 0o644); err != nil {
 			out.Infra = err.Error()
+		}
+		for name, m := range sets {
+			b := make([]byte, 0, 8*len(m))
+			for h := range m {
+				b = binary.LittleEndian.AppendUint64(b, h)
+			}
+			if err := os.WriteFile(*sigFile+".set."+name, b, 0o644); err != nil {
+				out.Infra = err.Error()
+			}
+			out.SetNames = append(out.SetNames, name)
 		}
 	} else {
 		for s := range sigNT {
@@ -333,7 +361,7 @@ func BatchMain(args []string) int {
 	replays := fs.String("replays", "", "")
 	known := fs.String("known", "", "")
 	extra := fs.String("extra", "", "JSON object merged into evidence coverage (rewrite counts etc.)")
-	selfN := fs.Uint64("selftest", 16, "determinism self-test: re-run this many plans in other processes")
+	selfN := fs.Uint64("selftest", 0, "determinism self-test: re-run this many plans in other processes (0 = 16 quick / 208 thorough)")
 	_ = fs.Parse(args)
 	t0 := time.Now()
 	prop := Lookup(*propID)
@@ -358,6 +386,12 @@ func BatchMain(args []string) int {
 	}
 	if uint64(*workers) > *n {
 		*workers = int(*n)
+	}
+	if *selfN == 0 {
+		*selfN = 16
+		if *tier == "thorough" {
+			*selfN = 208
+		}
 	}
 	if *selfN > *n {
 		*selfN = *n
@@ -437,7 +471,13 @@ func BatchMain(args []string) int {
 			agg.Faults[k] += v
 		}
 		for k, v := range r.out.Probes {
-			agg.Probes[k] += v
+			if strings.HasPrefix(k, "max_") {
+				if v > agg.Probes[k] {
+					agg.Probes[k] = v
+				}
+			} else {
+				agg.Probes[k] += v
+			}
 		}
 		for k, v := range r.out.Digests {
 			agg.Digests[k] = v
@@ -451,21 +491,74 @@ func BatchMain(args []string) int {
 			agg.UnreproducedNote = r.out.UnreproducedNote
 		}
 	}
-	sort.Slice(sigList, func(i, j int) bool { return sigList[i] < sigList[j] })
-	nsigs := 0
-	for i := range sigList {
-		if i == 0 || sigList[i] != sigList[i-1] {
-			nsigs++
+	distinct := func(l []uint64) int {
+		sort.Slice(l, func(i, j int) bool { return l[i] < l[j] })
+		n := 0
+		for i := range l {
+			if i == 0 || l[i] != l[i-1] {
+				n++
+			}
+		}
+		return n
+	}
+	nsigs := distinct(sigList)
+	sigList = nil
+	setCounts := map[string]int{}
+	setNames := map[string]bool{}
+	for _, r := range results {
+		for _, n := range r.out.SetNames {
+			setNames[n] = true
 		}
 	}
-	sigList = nil
+	for name := range setNames {
+		var l []uint64
+		for w := range results {
+			if b, err := os.ReadFile(filepath.Join(sigDir, fmt.Sprintf("w%d.bin.set.%s", w, name))); err == nil {
+				for i := 0; i+8 <= len(b); i += 8 {
+					l = append(l, binary.LittleEndian.Uint64(b[i:]))
+				}
+			}
+		}
+		setCounts["distinct_"+name] = distinct(l)
+	}
 	// determinism self-test: same plans, other processes, other GOMAXPROCS
 	selfPairs := 0
+	selfProcs := 0
 	selfFail := ""
 	if *selfN > 0 {
+		// each re-run process takes a slice of 16 plans: 2 processes per batch in the quick tier, 26 in the thorough tier
+		type job struct {
+			gmp      int
+			from, to uint64
+		}
+		var jobs []job
 		for _, gmp := range []int{4, 16} {
-			r := runWorker(gmp, "-prop", *propID, "-tier", *tier, "-seed", fmt.Sprint(*seed), "-from", "0", "-to", fmt.Sprint(*selfN),
-				"-digests", fmt.Sprint(*selfN), "-no-shrink")
+			for from := uint64(0); from < *selfN; from += 16 {
+				to := from + 16
+				if to > *selfN {
+					to = *selfN
+				}
+				jobs = append(jobs, job{gmp, from, to})
+			}
+		}
+		outs := make([]wres, len(jobs))
+		sem := make(chan struct{}, *workers)
+		fin := make(chan int)
+		for ji, j := range jobs {
+			go func(ji int, j job) {
+				sem <- struct{}{}
+				outs[ji] = runWorker(j.gmp, "-prop", *propID, "-tier", *tier, "-seed", fmt.Sprint(*seed), "-from", fmt.Sprint(j.from), "-to", fmt.Sprint(j.to),
+					"-digests", fmt.Sprint(*selfN), "-no-shrink")
+				<-sem
+				fin <- ji
+			}(ji, j)
+		}
+		for range jobs {
+			<-fin
+		}
+		for ji, r := range outs {
+			gmp := jobs[ji].gmp
+			selfProcs++
 			if r.err != nil || r.out.Infra != "" {
 				fmt.Fprintf(os.Stderr, "INFRA: determinism self-test worker: %v %s\n", r.err, r.out.Infra)
 				return 2
@@ -547,6 +640,8 @@ func BatchMain(args []string) int {
 			"stopped_by_time_cap": agg.TimedOut,
 			"workers":             *workers,
 			"known_findings_hit":  knownHit,
+			"distinct_sets":       setCounts,
+			"determinism_processes": selfProcs,
 			"real_components": []string{"lexer", "goyacc parser", "AST", "v1 and v2 check passes", "v1 and v2 interpreters",
 				"all builtins and their third-party engines", "input.Point", "errchain", "engine loader/linker", "CLI run package"},
 			"stubbed_components": []string{"sync.Pool -> simrt.Pool", "map iteration order -> simrt.Iter", "time.Now -> simrt.Now",
